@@ -490,6 +490,11 @@ func build(d *desc) interfaces.Transaction {
 		code := codeOf(d.one("crpk"))
 		regKey(d.one("crpk"))
 		pl = &payload.CRInfo{Code: code, CID: regPH(d.one("cid")), DID: phOf("did" + d.one("cid")), NickName: regStr(d.one("nick")), Url: "u", Location: 1}
+		if ty == common2.RegisterCR && d.pver == int(payload.CRInfoSchnorrVersion) {
+			// schnorr registration: no code in the payload, the schnorr redeem script (version, key) in the program
+			pl.(*payload.CRInfo).Code = []byte{}
+			programs = []*program.Program{{Code: append([]byte{0x51, 0x21}, pkOf(d.one("crpk"))...), Parameter: []byte{1}}}
+		}
 	case common2.UnregisterCR:
 		pl = &payload.UnregisterCR{CID: regPH(d.one("cid"))}
 	case common2.CRCProposal:
